@@ -43,7 +43,30 @@ fn class(prog: &Program, r: &RunResult) -> String {
     )
 }
 
+/// After the first terminal poll result, no later poll may return data (C20).
+pub fn pred_c20_sched(_prog: &Program, r: &RunResult) -> String {
+    if r.panicked {
+        return "FAIL:panic".into();
+    }
+    let mut seen = false;
+    for t in &r.trace {
+        if let TraceStep::Poll(_, s) = t {
+            if seen && (s.starts_with('D') || s == "PEND") {
+                return format!("FAIL:{} after a terminal event", s);
+            }
+            if s == "END" || s == "ERR" {
+                seen = true;
+            }
+        }
+    }
+    "ok".into()
+}
+
 pub fn run_suite(em: &mut Emit, thorough: bool, _seed: u64, abort: bool, body_drop: bool) {
+    run_suite_with(em, thorough, abort, body_drop, false)
+}
+
+pub fn run_suite_with(em: &mut Emit, thorough: bool, abort: bool, body_drop: bool, c20: bool) {
     install_hook();
     let max_len = if thorough { 4 } else { 3 };
     let per_prog_limit = if thorough { 4000 } else { 150 };
@@ -70,13 +93,13 @@ pub fn run_suite(em: &mut Emit, thorough: bool, _seed: u64, abort: bool, body_dr
                             cap,
                             prod: prod.clone(),
                             policy,
-                            extra_polls: 1,
+                            extra_polls: if c20 { 3 } else { 1 },
                             spurious,
                             drop_body_after,
                         };
                         nprog += 1;
                         let (n, ex) = explore(&prog, per_prog_limit, |r| {
-                            let p = if body_drop { pred_c11_sched(&prog, r) } else { pred_c10(&prog, r) };
+                            let p = if c20 { pred_c20_sched(&prog, r) } else if body_drop { pred_c11_sched(&prog, r) } else { pred_c10(&prog, r) };
                             em.case(&sched_line(&prog, r), &sched_out(r), &p, &class(&prog, r));
                         });
                         total += n;
